@@ -3,7 +3,7 @@
    encryptor (arbitrary function). All statements are for every op list, i.e. every request stream,
    every choke decision sequence and every segmentation of the writes. *)
 From Coq Require Import List NArith Bool.
-From LTV.C05 Require Import ParamsGen Model Proofs ProofsB Examples.
+From LTV.C05 Require Import ParamsGen Model Proofs ProofsB ProofsC ProofsD Examples.
 Import ListNotations.
 Local Open Scope N_scope.
 
@@ -109,3 +109,38 @@ Theorem closed_forever : forall (L : layout) (content : N -> N -> N) (enc : bool
   closed (run L content enc ks ops1) = true -> run L content enc ks (ops1 ++ ops2) = run L content enc ks ops1.
 Proof. exact ProofsB.closed_forever. Qed.
 Print Assumptions closed_forever.
+
+(* ---- the mapped upload chunk (m_up_chunk: one ChunkList reference) ---- *)
+Theorem chunk_released_when_closed : forall (L : layout) (content : N -> N -> N) (enc : bool) (ks : N -> N) (ops : list op),
+  closed (run L content enc ks ops) = true -> upc (run L content enc ks ops) = None.
+Proof. exact ProofsC.chunk_released_when_closed. Qed.
+Print Assumptions chunk_released_when_closed.
+
+Theorem chunk_held_while_streaming : forall (L : layout) (content : N -> N -> N) (enc : bool) (ks : N -> N) (ops : list op),
+  ws (run L content enc ks ops) = WPiece ->
+  upc (run L content enc ks ops) = Some (p_index (cur (run L content enc ks ops))).
+Proof. exact ProofsC.chunk_held_while_streaming. Qed.
+Print Assumptions chunk_held_while_streaming.
+
+Theorem chunk_only_verified : forall (L : layout) (content : N -> N -> N) (enc : bool) (ks : N -> N) (ops : list op) (i : N),
+  upc (run L content enc ks ops) = Some i ->
+  l_completed L i = true /\ i < n_pieces L /\
+  exists p, In (MPiece p) (msgs (run L content enc ks ops)) /\ p_index p = i.
+Proof. exact ProofsC.chunk_only_verified. Qed.
+Print Assumptions chunk_only_verified.
+
+(* choked and told so (CHOKE written, or never unchoked): nothing mapped, nothing queued *)
+Theorem choked_holds_nothing : forall (L : layout) (content : N -> N -> N) (enc : bool) (ks : N -> N) (ops : list op),
+  choked (run L content enc ks ops) = true -> send_choked (run L content enc ks ops) = false ->
+  upc (run L content enc ks ops) = None /\ queue (run L content enc ks ops) = [].
+Proof. exact ProofsC.choked_holds_nothing. Qed.
+Print Assumptions choked_holds_nothing.
+
+(* ---- the fuel of ew is sufficient: on every reachable state extra fuel changes nothing, i.e. the
+   out-of-fuel exit is never taken and no write call of the model stops early ---- *)
+Theorem fuel_sufficient : forall (L : layout) (content : N -> N -> N) (enc : bool) (ks : N -> N) (ops : list op) (k : N) (g : nat),
+  let s := run L content enc ks ops in
+  closed s = false ->
+  ew L content enc ks (ew_fuel s + g) k s = ew L content enc ks (ew_fuel s) k s.
+Proof. exact ProofsD.fuel_sufficient. Qed.
+Print Assumptions fuel_sufficient.
